@@ -113,6 +113,13 @@ def run(ctx):
         hist[" ".join(tags)] += 1
     ops = ["m.run %s # %s" % (p_strm.render(t), s) for t, _, _, s in cases]
     extra_ops = common.load_corpus("C02")
+    # the RDATE / EXDATE lists as one stream (__make_evrdat: DATEs take DTSTART's time, sorted, repeats dropped)
+    for _ in range(3000 if ctx.tier == "thorough" else 400):
+        kind = rng.choice(["sec", "day", "ms"])
+        ds = p_C08.rand_inst(rng, kind, 2019, 2021)
+        k = rng.choice([0, 1, 2, 3, 5, 8, 20, 70])
+        pool = [p_C08.rand_inst(rng, rng.choice([kind, kind, "day"]), 2019, 2021) for _ in range(max(1, k // 2))]
+        extra_ops.append(("e.rdat %s %s" % (hex16(*ds), " ".join(hex16(*rng.choice(pool)) for _ in range(k)))).strip())
     impl, st, err = ctx.impl(exe, ops + extra_ops)
     model = ctx.model(ops + extra_ops)
     fails = []
